@@ -471,6 +471,10 @@ def wait_readable(w, socks, timeout, scale=1.0, edge=()):
     if adv is not None:
         return adv(w, socks, ready, timeout, scale)
     if ready:
+        # (arrival_gap: the peer trickles - every read is preceded by that much virtual time, never more than the wait allows)
+        gap = getattr(w, 'arrival_gap', 0)
+        if gap:
+            w.clock = w.clock + (min(gap, timeout / scale) if timeout is not None else gap)
         w.log.append(('wait', 'readable'))
         return [(s.fd, _select.POLLIN) for s in ready]
     # nothing to read: the full timeout elapses
